@@ -65,7 +65,86 @@ class _NNF(ast.NodeTransformer):
         return push(node)
 
 
+class _MergeIfs(ast.NodeTransformer):
+    """``if A: if B: S`` (no else on either, nothing else in the outer body)
+    is ``if A and B: S``."""
+
+    def visit_If(self, node):
+        self.generic_visit(node)
+        while (not node.orelse and len(node.body) == 1 and
+               isinstance(node.body[0], ast.If) and not node.body[0].orelse):
+            inner = node.body[0]
+            vals = []
+            for t in (node.test, inner.test):
+                if isinstance(t, ast.BoolOp) and isinstance(t.op, ast.And):
+                    vals.extend(t.values)
+                else:
+                    vals.append(t)
+            node.test = ast.copy_location(
+                ast.BoolOp(op=ast.And(), values=vals), node.test)
+            node.body = inner.body
+        return node
+
+
+def _sink_returns(fn):
+    """``if a: r = X  elif b: r = Y  else: r = Z;  return r``  is
+    ``if a: return X  elif b: return Y  else: return Z`` when r is only
+    assigned at the tails of that chain."""
+    body = fn.body
+    if len(body) < 2 or not isinstance(body[-1], ast.Return) or \
+            not isinstance(body[-1].value, ast.Name) or \
+            not isinstance(body[-2], ast.If):
+        return False
+    var = body[-1].value.id
+    chain = body[-2]
+    tails = []
+
+    def collect(node):
+        # every branch must end in ``var = E`` (or in a nested chain that
+        # does); an absent else means a path without assignment
+        for blk in (node.body, node.orelse):
+            if not blk:
+                return False
+            last = blk[-1]
+            if isinstance(last, ast.Assign) and len(last.targets) == 1 and \
+                    isinstance(last.targets[0], ast.Name) and \
+                    last.targets[0].id == var:
+                tails.append((blk, last))
+            elif isinstance(last, ast.If) and len(blk) == 1:
+                if not collect(last):
+                    return False
+            elif isinstance(last, (ast.Raise, ast.Return)):
+                continue
+            else:
+                return False
+        return True
+    if not collect(chain):
+        return False
+    assigned = {id(t) for _, t in tails}
+    for n in ast.walk(chain):
+        if isinstance(n, ast.Name) and n.id == var:
+            p_ok = False
+            for _, t in tails:
+                if n is t.targets[0]:
+                    p_ok = True
+            if not p_ok:
+                return False
+    # nothing else in the function touches var
+    for st in body[:-2]:
+        for n in ast.walk(st):
+            if isinstance(n, ast.Name) and n.id == var:
+                return False
+    for blk, t in tails:
+        blk[-1] = ast.copy_location(ast.Return(value=t.value), t)
+    body.pop()
+    return True
+
+
 def normalise(tree):
     _NNF().visit(tree)
+    _MergeIfs().visit(tree)
+    for n in ast.walk(tree):
+        if isinstance(n, (ast.FunctionDef, ast.AsyncFunctionDef)):
+            _sink_returns(n)
     ast.fix_missing_locations(tree)
     return tree
